@@ -145,6 +145,9 @@ func c12Exec(t *fw.T, cs *c12Case, _ bool) {
 			backing[i] = byte(0xA5 + i)
 		}
 		pristine = append([]byte(nil), backing...)
+		if r.Intn(3) == 0 {
+			return backing[: len(data) : len(data)+1] // exactly one spare byte: just enough for the terminator
+		}
 		return backing[:len(data)]
 	}
 	var c cursorAPI
